@@ -399,9 +399,12 @@ void large(long shard, long nshards, bool thorough) {
   static const int quick_algos[] = {0, 1, 3};
   static const int thorough_algos[] = {0, 1, 2, 3, 5, 7, 10};
   vector<std::tuple<int, uint64_t, uint64_t>> cases;
-  if (!thorough) for (int a : quick_algos) cases.push_back({a, (1ULL << 32) + 5, 0});
+  // second value 0: one update of that length; the marker length 1 stands for "two updates of 2^31+3 bytes each" (the low length word
+  // wraps through accumulation - the carry into the high word - instead of through one oversized update)
+  if (!thorough) for (int a : quick_algos) { cases.push_back({a, (1ULL << 32) + 5, 0}); cases.push_back({a, 1, 0}); }
   else for (int a : thorough_algos) {
     cases.push_back({a, (1ULL << 32) + 5, 0});
+    cases.push_back({a, 1, 0});
     if (a == 10) cases.push_back({a, 1ULL << 32, 1});
     if (a == 0 || a == 1 || a == 3) { cases.push_back({a, 1ULL << 32, 1}); cases.push_back({a, (1ULL << 32) + BLOCK[a] + 3, (uint64_t)BLOCK[a] - 1}); }
   }
@@ -409,7 +412,8 @@ void large(long shard, long nshards, bool thorough) {
   for (auto &t : cases) {
     if ((idx++ % nshards) != shard) continue;
     Case c; c.algo = std::get<0>(t);
-    Op L; L.kind = 'L'; L.a = std::get<1>(t); L.b = std::get<2>(t); c.ops.push_back(L);
+    Op L; L.kind = 'L'; L.a = std::get<1>(t); L.b = std::get<2>(t);
+    if (L.a == 1) { L.a = (1ULL << 31) + 3; L.b = 0; c.ops.push_back(L); c.ops.push_back(L); } else c.ops.push_back(L);
     // "since creation or the last reset": nothing of a 2^32-byte history (length counters' high words) may survive a reset
     { Op o; o.kind = 's'; c.ops.push_back(o); o.kind = 'r'; c.ops.push_back(o); Op u; u.kind = 'u'; u.bytes = "abc"; c.ops.push_back(u); Op d; d.kind = 'd'; d.a = 64; c.ops.push_back(d);
       o.kind = 'r'; c.ops.push_back(o); o.kind = 's'; c.ops.push_back(o); }
